@@ -94,6 +94,7 @@ UNIT_FALLBACK = {
     "buildstep": [],
     "buildnode": [],
     "noexts": [],
+    "maxpath": [],
     "prune": [("filter::verif::f_remove_censored_3", "remove_censored_exts on 3 Kmer4 entries"), ("filter::verif::f_remove_censored_sharded", "remove_censored_exts_sharded, 2 entries + 3 all_kmers")],
     "msppiece": [("msp::verif::m_msp_sequence_short", "msp_sequence on reads of exactly k = 3, and k - 1, bases")],
 }
@@ -301,14 +302,15 @@ PROPS["C03"] = {
     "title": "Extensions and edges denote exactly the real adjacencies, symmetrically",
     "kani": lambda tier: exts(EXTS_ALL) + kfam(["k_rc", "k_extend_left", "k_extend_right"], tier),
     "verus": [("graphfn", r"^(DebruijnGraph::|Node::|BaseGraph::)"), ("nodesall", r"^Node::(l_edges|r_edges|edges)$"),
-              ("prune", r"^(pruned_exts|pruned_exts_sharded|lemma_search_table|lemma_search_list)$")],
+              ("prune", r"^(pruned_exts|pruned_exts_sharded|lemma_search_table|lemma_search_list)$"),
+              ("maxpath", r"^commit_step$")],
     "bounded": lambda tier: [("filter::verif::f_remove_censored_3", "3 table entries, Kmer4, both strandedness values"),
                              ("filter::verif::f_remove_censored_sharded", "2 valid entries, 3 shard k-mers, Kmer4")],
     "design_ref": "DESIGN.md §6 C03",
     "undecided": [
         "set of resolvable edges == set of observed (K+1)-mers (needs the C05 kernel and C01)",
         "global symmetry u->v => v->u (a property of the constructed graph, not of one call)",
-        "max_path / max_path_beam (f32 scores, HashSet, closures) and sequence_of_path",
+        "max_path / max_path_beam (f32 scores, closures capturing closures, candidate scan over SmallVec edges) and sequence_of_path as wholes; of max_path the step that commits the chosen successor IS under contract (unit maxpath, rule R15: the successor is taken only if not yet used, is marked used and put on the proper end with the proper orientation - the step invariant behind 'no node repeated in a best path'); of sequence_of_path the body of its loop over the path IS under contract (graphfn::path_step, rule R15: one step appends the node's sequence - reverse complemented when traversed reversed - minus the K-1 bases overlapping the previous node), the loop header (enumerate + reference pattern) is not",
         "remove_censored_exts(_sharded): the computation of each entry's new extension byte IS under contract (unit prune, rule R15 statement range: kept exactly when present and the target k-mer is a table key - sharded: or not a k-mer of this shard at all), given the assumed contracts of the two std binary searches on sorted slices; the loop over the entries and the final store `(valid_kmers[idx].1).0 = new_exts` (field assignment through IndexMut) are covered by the bounded stand-in only"],
     "trust": VERUS_TRUST + GRAPH_TRUST + [SEAM_NOTE,
         "std slice binary searches (binary_search_by_key, binary_search): on a slice sorted as the search requires they answer Ok exactly when an element with that key / value exists (assumed; sortedness is the callers' obligation, token keys_sorted); k-mers are equal exactly when they spell the same bases (axiom_kmer_eq; Kani family k_eq_ord)",
@@ -337,12 +339,13 @@ PROPS["C05"] = {
 PROPS["C06"] = {
     "title": "Strand symmetry when unstranded, strand separation when stranded",
     "kani": lambda tier: kfam(["k_canon", "k_min_rc", "k_rc"], tier) + exts(["x_rc", "x_complement", "x_reverse"]),
-    "verus": [("graphfn", r"^DebruijnGraph::(find_link|search_kmer)$"), ("compress", r"^CompressFromHash::try_extend_kmer$"), ("obskernel", None)],
+    "verus": [("graphfn", r"^DebruijnGraph::(find_link|search_kmer)$"), ("compress", r"^CompressFromHash::try_extend_kmer$"), ("obskernel", None),
+              ("buildnode", r"^CompressFromHash::(compress_kmers|build_node)$|^Ctx::lemma_chain$")],
     "bounded": lambda tier: [],
     "design_ref": "DESIGN.md §6 C06",
     "undecided": ["invariance of the whole table / graph under reverse-complementing a subset of reads: a relational property of two runs through the undecided grouping kernel (C05) and the global construction (C01)"],
     "trust": VERUS_TRUST + GRAPH_TRUST + [SEAM_NOTE],
-    "level_text": "Per-observation strand symmetry: on the real min_rc_flip + Exts::rc, an observation (k, e) and its reverse-complement observation (rc k, rc e) are proved to contribute the identical (key, extensions) pair (extensions unless k is its own reverse complement) and the key is the lexicographic minimum, for all k-mer values of every shipped type and all 256 extension sets (Kani, complete). Strand separation: find_link is proved to consult the reverse complement only when unstranded (flip => !stranded) and try_extend_kmer to use the un-canonicalised neighbour and unchanged direction when stranded (Verus).",
+    "level_text": "Per-observation strand symmetry: on the real min_rc_flip + Exts::rc, an observation (k, e) and its reverse-complement observation (rc k, rc e) are proved to contribute the identical (key, extensions) pair (extensions unless k is its own reverse complement) and the key is the lexicographic minimum, for all k-mer values of every shipped type and all 256 extension sets (Kani, complete). Strand separation: find_link is proved to consult the reverse complement only when unstranded (flip => !stranded) and try_extend_kmer to use the un-canonicalised neighbour and unchanged direction when stranded (Verus). Whole-run, at the compression stage (graph_post of the real compress_kmers, unit buildnode): in stranded mode every k-mer spelled by an output node IS a table key as given - no reverse complement is ever spelled or looked up (lemma_chain: the walk direction never flips when stranded) -, in unstranded mode it is the key's canonical form on whichever strand the node runs.",
     "level_note": "Partial claim (see undecided_clauses).",
 }
 
